@@ -787,8 +787,11 @@ class XMLParserMixin(
 
     def _save_author(self, key, value, prefix="author"):
         context = self._get_context()
-        context.setdefault(prefix + "_detail", FeedParserDict())
-        context[prefix + "_detail"][key] = value
+        detail = context.setdefault(prefix + "_detail", FeedParserDict())
+        if not isinstance(detail, dict):
+            # the text of a same-named element of the feed is in the way
+            detail = context[prefix + "_detail"] = FeedParserDict()
+        detail[key] = value
         self._sync_author_detail()
         context.setdefault("authors", [FeedParserDict()])
         author = self._last_item(context, "authors")
